@@ -40,7 +40,8 @@ OUTCOME_OF_CLASS = {"failure": "addFailure", "error": "addError", "skip": "addSk
                     "uxsuccess": "addUnexpectedSuccess"}
 
 # ----------------------------------------------------------------------------- generation
-DETAIL_NAMES = ["traceback", "traceback-1", "Failed expectation", "Failed expectation-1", "log", "log-1", "détail", "fx", "fx-1", "m"]
+DETAIL_NAMES = ["traceback", "traceback-1", "Failed expectation", "Failed expectation-1", "log", "log-1", "détail", "fx", "fx-1", "m",
+                "load%", "100%d"]
 CHUNKS = st.lists(st.sampled_from([b"", b"a", b"\xff\x00", "é".encode("utf8"), b"two\nlines", b"z" * 5]), max_size=3)
 
 
@@ -53,6 +54,8 @@ class Gen:
         self.ids = itertools.count(1)
         self.raises = 0
         self.cells = 0
+        self.cleanup_ids = []
+        self.multi_ids = []
 
     def nid(self):
         return next(self.ids)
@@ -70,7 +73,12 @@ class Gen:
         k = self.kind()
         a = {"a": "raise", "i": self.nid(), "kind": k}
         if k == "multi":
-            a["sub"] = self.multi_subs(1)
+            if self.multi_ids and self.draw(st.integers(0, 3)) == 0:
+                a["kind"] = "again"           # the very same MultipleExceptions instance raised once more
+                a["ref"] = self.draw(st.sampled_from(self.multi_ids))
+            else:
+                a["sub"] = self.multi_subs(1)
+                self.multi_ids.append(a["i"])
         self.raises += 1
         return a
 
@@ -110,11 +118,17 @@ class Gen:
             if o.get("onexc") and where in ("setUp", "body"):
                 choices += ["onexc"]
             c = self.draw(st.sampled_from(choices))
+            if c == "cleanup" and self.cleanup_ids and self.draw(st.integers(0, 3)) == 0:
+                # register an already registered callable (same function, same arguments) once more
+                out.append({"a": "cleanup_dup", "i": self.nid(), "ref": self.draw(st.sampled_from(self.cleanup_ids))})
+                continue
             if c == "log":
                 out.append({"a": "log", "i": self.nid()})
             elif c == "cleanup":
-                out.append({"a": "cleanup", "i": self.nid(), "args": self.draw(st.booleans()),
-                            "body": self.actions(depth + 1, "cleanup") + ([self.raise_action()] if self.draw(st.integers(0, 3)) == 0 else [])})
+                act = {"a": "cleanup", "i": self.nid(), "args": self.draw(st.booleans()),
+                       "body": self.actions(depth + 1, "cleanup") + ([self.raise_action()] if self.draw(st.integers(0, 3)) == 0 else [])}
+                self.cleanup_ids.append(act["i"])
+                out.append(act)
             elif c == "patch":
                 obj = self.draw(st.integers(0, 2))
                 out.append({"a": "patch", "i": self.nid(), "obj": obj,
@@ -172,7 +186,7 @@ class Gen:
 def programs(draw, **opts):
     g = Gen(draw, opts)
     decor = draw(st.sampled_from(["none"] * 8 + ["skip_method", "skip_class", "skipIf_true", "skipIf_false", "skipUnless_true", "skipUnless_false",
-                                  "expectedFailure", "expectedFailure"])) \
+                                  "expectedFailure", "expectedFailure", "skip_method_empty", "skipIf_true_empty"])) \
         if opts.get("decor") else "none"
     p = opts.get("p_raise", 3)
     prog = {"decor": decor,
@@ -201,6 +215,11 @@ def programs(draw, **opts):
         prog["handlers"] = hs
         prog["handlers_when"] = draw(st.sampled_from(["init", "setUp"]))
     prog["cells"] = g.cells
+    if opts.get("extras"):
+        prog["custom_skip"] = draw(st.integers(0, 4)) == 0        # skipException replaced by an unrelated class
+        prog["force_outside"] = draw(st.integers(0, 6)) == 0      # force_failure set on the instance before run()
+    if opts.get("onexc"):
+        prog["outside_handler"] = draw(st.integers(0, 3)) == 0    # addOnException called before run()
     return prog
 
 
@@ -223,11 +242,18 @@ class Model:
         self.cells = {}
         self.handlers = 0
         self.gen_items = []      # generated details the outcome must carry: dict(type, marker, base, t)
+        self.registered = {}
+        self.multis = {}
         self._fx_cleanups = {}
         self.fixture_details = []
         self.mismatch_details = []
         self.expect_mismatches = 0
-        self.skipped_by_decorator = prog["decor"] in ("skip_method", "skip_class", "skipIf_true", "skipUnless_false")
+        self.skipped_by_decorator = prog["decor"] in ("skip_method", "skip_class", "skipIf_true", "skipUnless_false",
+                                                      "skip_method_empty", "skipIf_true_empty")
+        if prog.get("force_outside"):
+            self.force = True
+        if prog.get("outside_handler"):
+            self.handlers = 1
 
     # -- helpers
     def note(self, kind, i, stage):
@@ -265,12 +291,23 @@ class Model:
             return True
         if t == "raise":
             if a["kind"] == "multi":
+                self.multis[a["i"]] = a
                 self.note_multi(a, stage)
+            elif a["kind"] == "again":
+                if a["ref"] in self.multis:
+                    self.note_multi(self.multis[a["ref"]], stage)
+                else:
+                    return True                   # nothing to raise again: a plain log action
             else:
                 self.note(a["kind"], a["i"], stage)
             return False
         if t == "cleanup":
             self.cleanups.append(("user", a))
+            self.registered[a["i"]] = a
+            return True
+        if t == "cleanup_dup":
+            if a["ref"] in self.registered:      # only if the original registration has been executed in this run
+                self.cleanups.append(("user", self.registered[a["ref"]]))
             return True
         if t == "patch":
             o = self.objs[a["obj"]]
@@ -532,6 +569,8 @@ class Live:
         self.objs = [types.SimpleNamespace(x="orig-x", nonev=None), types.SimpleNamespace(x="orig-x", nonev=None), Slotted()]
         self.cells = {}
         self.raised_objs = {}       # marker -> exception instance
+        self.multis = {}
+        self.cleanup_fns = {}
         self.handler_calls = []     # (handler id, marker or type name, len(result log) at call)
         self.user_handler_calls = []
 
@@ -583,7 +622,8 @@ def build_case(prog, live, result_log=None, runner=None):
         if kind == "skip":
             return case.skipException(msg)
         if kind == "skip_sub":
-            return CustomSkip(msg)
+            # a subclass of whatever this test case uses as its skip signal
+            return type("CustomSkip", (case.skipException,), {})(msg)
         if kind in ("xfail_sub",):
             try:
                 raise AssertionError(msg)
@@ -611,7 +651,7 @@ def build_case(prog, live, result_log=None, runner=None):
             case.expectFailure("MARK-%d-" % i, case.assertEqual, 1, 1)
             raise AssertionError("expectFailure did not raise")
         e = make_exc(case, kind, i)
-        live.raised_objs[i] = e
+        live.raised_objs.setdefault(i, []).append(e)
         raise e
 
     def raise_multi(case, subs):
@@ -669,7 +709,15 @@ def build_case(prog, live, result_log=None, runner=None):
             return
         if t == "raise":
             if a["kind"] == "multi":
-                raise_multi(case, a["sub"])
+                try:
+                    raise_multi(case, a["sub"])
+                except MultipleExceptions as me:
+                    live.multis[a["i"]] = me
+                    raise
+            if a["kind"] == "again":
+                if a["ref"] in live.multis:
+                    raise live.multis[a["ref"]]
+                return
             do_raise(case, a["kind"], a["i"])
         elif t == "cleanup":
             def fn(*args, **kw):
@@ -677,10 +725,18 @@ def build_case(prog, live, result_log=None, runner=None):
                 if a["args"] and (args != (1, "two") or kw != {"k": 3}):
                     live.log.append(("BADARGS", a["i"], args, kw))
                 run_actions(case, a["body"])
+            live.cleanup_fns[a["i"]] = (fn, a["args"])
             if a["args"]:
                 case.addCleanup(fn, 1, "two", k=3)
             else:
                 case.addCleanup(fn)
+        elif t == "cleanup_dup":
+            if a["ref"] in live.cleanup_fns:
+                fn, with_args = live.cleanup_fns[a["ref"]]
+                if with_args:
+                    case.addCleanup(fn, 1, "two", k=3)
+                else:
+                    case.addCleanup(fn)
         elif t == "patch":
             case.patch(live.objs[a["obj"]], a["attr"], a["value"])
         elif t == "read":
@@ -729,6 +785,11 @@ def build_case(prog, live, result_log=None, runner=None):
         if runner is not None:
             run_tests_with = runner
 
+        def run(self, result=None):
+            live.cleanup_fns.clear()      # what was registered / raised in an earlier run of this instance is gone
+            live.multis.clear()
+            return super().run(result)
+
         def setUp(self):
             if prog.get("handlers_when") == "setUp":
                 install_handlers(self)
@@ -746,6 +807,10 @@ def build_case(prog, live, result_log=None, runner=None):
 
     if decor == "skip_method":
         Generated.test_program = testtools.skip("decorated")(Generated.test_program)
+    elif decor == "skip_method_empty":
+        Generated.test_program = testtools.skip("")(Generated.test_program)
+    elif decor == "skipIf_true_empty":
+        Generated.test_program = testtools.skipIf(True, "")(Generated.test_program)
     elif decor == "skipIf_true":
         Generated.test_program = testtools.skipIf(True, "decorated")(Generated.test_program)
     elif decor == "skipIf_false":
@@ -758,7 +823,19 @@ def build_case(prog, live, result_log=None, runner=None):
         Generated.test_program = unittest.expectedFailure(Generated.test_program)
     elif decor == "skip_class":
         Generated = testtools.skip("decorated")(Generated)
+    if prog.get("custom_skip"):
+        class OwnSkip(Exception):
+            """A project's own skip signal, unrelated to unittest.SkipTest."""
+        Generated.skipException = OwnSkip
     case = Generated("test_program")
     if prog.get("handlers_when", "init") == "init":
         install_handlers(case)
+    if prog.get("force_outside"):
+        case.force_failure = True
+    if prog.get("outside_handler"):
+        def outside(exc_info):
+            m = marker_of(exc_info[1])
+            live.handler_calls.append((0, m if m is not None else type(exc_info[1]).__name__,
+                                       None if result_log is None else len(result_log)))
+        case.addOnException(outside)
     return case
